@@ -7,7 +7,14 @@ client of the harness) and compared; recorded traces of those and of
 randomised real-parameter sequences (in order, restarted, repeated, skipped,
 wrong sizes, last block first, several endpoints / methods / cache keys, idle
 times around T and 2T with T = MAX_TRANSMIT_WAIT) are validated by TLC against
-BlockServerTrace.tla."""
+BlockServerTrace.tla.
+
+Second part (harness/blockserverdrive.py): combined Block1 + Block2 transfers (an upload whose response is larger
+than a block; follow-ups bare, with payload, repeating a Block1 option; restarts; second clients), FETCH / POST / PUT
+with payload-bearing block-0 requests and follow-ups (each method its own state), size exponents changing in
+mid-transfer, the reserved exponent 7, lifetimes of the rendering of a completed upload.  The model has one request
+action that goes through spool and cache like Resource._render_to_pipe; `Mode' selects the alphabet of one
+exhaustive run."""
 
 import json
 import os
@@ -16,6 +23,7 @@ import sys
 
 from harness import tlc, tracecheck, MachineryError, runner
 from harness.drive import run_all, key_salt
+from harness import blockserverdrive as bsd
 
 CFG = """SPECIFICATION Spec
 CONSTANTS
@@ -25,6 +33,7 @@ CONSTANTS
   MaxEnv = %(maxenv)d
   MaxTime = %(maxtime)d
   Lens = {10, 40}
+  Mode = "%(mode)s"
   FixGap = TRUE
   FixStale = TRUE
 %(extra)s
@@ -33,62 +42,8 @@ CONSTANTS
 T_REAL = 93 * 1024
 
 
-def behaviour_to_schedule(beh):
-    steps = []
-    expected = []
-    lens = []
-    n = 0
-    for label, st in beh[1:]:
-        emit = st.get("emit", [])
-        if not emit or emit[0]["k"] != "rx":
-            continue
-        e0 = emit[0]
-        n += 1
-        t = e0["t"] * 1024
-        tok = "%02x" % (0xA0 + n)
-        if e0["code"] == 3:
-            salt = key_salt(e0["r"], 3, 10)
-            steps.append({"at": t, "do": "rx", "r": e0["r"], "ty": "NON", "code": 3, "mid": 100 + n, "tok": tok,
-                          "path": ["h", "1"], "b1": [e0["b1n"], e0["b1m"], 0],
-                          "body": {"cid": salt, "off": e0["b1n"] * 16, "len": e0["plen"]}})
-        else:
-            steps.append({"at": t, "do": "rx", "r": e0["r"], "ty": "NON", "code": 1, "mid": 100 + n, "tok": tok,
-                          "path": ["h", "2"], "b2": [e0["b2n"], 0, 0]})
-        for e in emit:
-            if e["k"] == "release" and e0["code"] == 1:
-                lens.append(e["plen"])
-            if e["k"] == "tx":
-                expected.append((tok, e["code"], e["b1n"], e["b1m"], e["b2n"], e["b2m"], e["plen"] if e["code"] == 69 else -1,
-                                 e["off"] if e["code"] == 69 and e["plen"] > 0 else -1))
-            elif e["k"] == "call":
-                expected.append((tok, "call", e["plen"] if e["code"] == 3 else 0))
-    return {
-        "tuning": {"MAX_TRANSMIT_WAIT": 2.0, "EMPTY_ACK_DELAY": 0.125},
-        "mid0": 1, "tok0": 1, "nremotes": 2,
-        "handlers": {"1": {"delay": 0, "outcome": "nocode", "len": 0}, "2": {"delay": 0, "canon": True, "lens": lens or [10], "outcome": "ok"}},
-        "steps": steps, "horizon": 16 * 1024,
-    }, expected
-
-
-def project(real):
-    out = []
-    for e in real:
-        if e["k"] == "tx" and e["cls"] == "resp":
-            out.append((e["tok"], e["code"], e["b1n"], e["b1m"], e["b2n"], e["b2m"], e["plen"] if e["code"] == 69 else -1,
-                        e["off"] if e["code"] == 69 and e["plen"] > 0 else -1))
-        elif e["k"] == "call":
-            out.append((e["tok"], "call", e["plen"] if e["code"] == 3 else 0))
-    return out
-
-
-def compare(expected, real):
-    got = project(real)
-    for i, x in enumerate(expected):
-        if i >= len(got):
-            return "model predicts %d events, implementation produced %d; first missing %s" % (len(expected), len(got), x)
-        if x != got[i]:
-            return "event %d: model predicts %s, implementation produced %s" % (i + 1, x, got[i])
-    return None
+behaviour_to_schedule = bsd.behaviour_to_schedule
+compare = bsd.compare
 
 
 def oscillation_schedule(rng):
@@ -273,54 +228,130 @@ def sig_of(clause, sched, events, at):
             req = x
     if req is None:
         return clause + "|?"
+    parts = []
     if req["b1n"] >= 0:
-        return "%s|block1:%s%s" % (clause, "first" if req["b1n"] == 0 else "continuation", ":more" if req["b1m"] else ":last")
+        parts.append("block1:%s%s" % ("first" if req["b1n"] == 0 else "continuation", ":more" if req["b1m"] else ":last"))
     if req["b2n"] >= 0:
-        return "%s|block2:%s" % (clause, "first" if req["b2n"] == 0 else "later")
-    return clause + "|plain"
+        parts.append("block2:%s" % ("first" if req["b2n"] == 0 else "later"))
+    if not parts:
+        return clause + "|plain"
+    return clause + "|" + "+".join(parts)
+
+
+MODES = ("classic", "combined", "methods", "sizes")
+# exhaustive constants per alphabet (T = 2 ticks; MaxTime beyond 2T so that "gone at 2T" is reached after a refresh)
+MC_QUICK = {
+    "classic": dict(nrem=1, maxnum=2, maxenv=3, maxtime=6),
+    "combined": dict(nrem=1, maxnum=2, maxenv=3, maxtime=4),
+    "methods": dict(nrem=1, maxnum=2, maxenv=4, maxtime=5),
+    "sizes": dict(nrem=1, maxnum=2, maxenv=4, maxtime=5),
+}
+MC_THOROUGH = {
+    "classic": dict(nrem=1, maxnum=2, maxenv=4, maxtime=6),
+    "combined": dict(nrem=1, maxnum=2, maxenv=4, maxtime=5),
+    "methods": dict(nrem=1, maxnum=2, maxenv=5, maxtime=5),
+    "sizes": dict(nrem=1, maxnum=2, maxenv=5, maxtime=5),
+}
+SIM = dict(nrem=2, maxnum=3, maxenv=7, maxtime=10)
+# judgements the extension is about: each must have been made on real executions, or the run says nothing about it
+NEW_JUDGEMENTS = ("first_after_block1", "combined_first_slice", "later_payload_method", "later_with_payload",
+                  "later_with_block1", "later_rebased", "szx7", "first_larger_than_rendering", "whole_body_no_block1")
 
 
 def work(rep, args):
+    from concurrent.futures import ThreadPoolExecutor
+    import time
+
     quick = args.tier == "quick"
     rng = random.Random(args.seed * 7477 + 6)
-    consts = dict(nrem=1, maxnum=2, maxenv=4, maxtime=6) if quick else dict(nrem=1, maxnum=1, maxenv=5, maxtime=8)
+    rng2 = random.Random(args.seed * 9151 + 60)      # the extension's schedules: the first part's stay what they were
+    mcc = MC_QUICK if quick else MC_THOROUGH
+    phases = {}
     with tlc.Workdir() as wd:
-        wd.write("BlockServer_run.cfg", CFG % dict(consts, extra="VIEW View\nINVARIANT NoBad\nINVARIANT AliveIsPresent"))
-        mc = tlc.run(wd, "BlockServer.tla", "BlockServer_run.cfg", timeout=2400, heap="12g")
-        tlc.need_ok_run(mc, "BlockServer model check")
-        if mc.violated:
-            raise MachineryError("BlockServer model (fixed design) violates %s" % mc.violated)
-        wd.write("BlockServer_sim.cfg", CFG % dict(nrem=2, maxnum=3, maxenv=7, maxtime=10, extra=""))
-        simdir = wd.file("sim")
-        os.makedirs(simdir)
-        nsim = 300 if quick else 3000
-        sim = tlc.run(wd, "BlockServer.tla", "BlockServer_sim.cfg", workers=1, timeout=900,
-                      simulate="file=%s/tr,num=%d" % (simdir, nsim), depth=30, seed=args.seed + 1)
-        tlc.need_ok_run(sim, "BlockServer simulation")
-        behaviours = tlc.read_sim_traces(os.path.join(simdir, "tr"))
-        model = [behaviour_to_schedule(b) for b in behaviours]
-        model = [(s, e) for s, e in model if s["steps"]]
-        rand = [random_schedule(rng) for _ in range(500 if quick else 8000)]
-        scheds = [s for s, _ in model] + rand
+        t0 = time.time()
+        # quick: the two large alphabets exhaustively, one simulation over the union of all four;
+        # thorough: all four exhaustively, one simulation per alphabet
+        mc_modes = ("classic", "combined") if quick else MODES
+        sim_modes = ("all",) if quick else MODES
+        nsim = {"all": 120} if quick else {"classic": 1500, "combined": 1500, "methods": 500, "sizes": 500}
+        for mode in mc_modes:
+            wd.write("BlockServer_mc_%s.cfg" % mode,
+                     CFG % dict(mcc[mode], mode=mode, extra="VIEW View\nINVARIANT NoBad\nINVARIANT AliveIsPresent\nINVARIANT CacheIsLatest"))
+        for mode in sim_modes:
+            wd.write("BlockServer_sim_%s.cfg" % mode, CFG % dict(SIM, mode=mode, extra=""))
+            os.makedirs(wd.file("sim_" + mode))
+
+        def run_mc(mode):
+            return tlc.run(wd, "BlockServer.tla", "BlockServer_mc_%s.cfg" % mode, workers=8 if quick else 8,
+                           timeout=1200 if quick else 3000, heap="3g" if quick else "10g")
+
+        def run_sim(mode):
+            return tlc.run(wd, "BlockServer.tla", "BlockServer_sim_%s.cfg" % mode, workers=1, timeout=900,
+                           simulate="file=%s/tr,num=%d" % (wd.file("sim_" + mode), nsim[mode]), depth=30,
+                           seed=args.seed + 1 + sim_modes.index(mode))
+
+        # the exhaustive runs and the simulations side by side
+        with ThreadPoolExecutor(max_workers=3 if quick else 6) as ex:
+            fm = {m: ex.submit(run_mc, m) for m in mc_modes}
+            fs = {m: ex.submit(run_sim, m) for m in sim_modes}
+            mcs = {m: f.result() for m, f in fm.items()}
+            sims = {m: f.result() for m, f in fs.items()}
+        for m in mc_modes:
+            tlc.need_ok_run(mcs[m], "BlockServer model check (%s)" % m)
+            if mcs[m].violated:
+                raise MachineryError("BlockServer model (fixed design, alphabet %s) violates %s" % (m, mcs[m].violated))
+        for m in sim_modes:
+            tlc.need_ok_run(sims[m], "BlockServer simulation (%s)" % m)
+        phases["tlc_model"] = round(time.time() - t0, 1)
+        model = []
+        model_mode = []
+        for m in sim_modes:
+            for b in tlc.read_sim_traces(os.path.join(wd.file("sim_" + m), "tr")):
+                s_, e_ = behaviour_to_schedule(b)
+                if s_["steps"]:
+                    model.append((s_, e_))
+                    model_mode.append(m)
+        rand = [random_schedule(rng) for _ in range(300 if quick else 8000)]
+        ext = [bsd.extension_schedule(rng2) for _ in range(300 if quick else 7000)]
+        scheds = [s for s, _ in model] + rand + ext
+        t0 = time.time()
         results = run_all(scheds)
+        phases["driver"] = round(time.time() - t0, 1)
         for s, res in zip(scheds, results):
             if "error" in res:
                 raise MachineryError("driver failed on schedule %s\n%s" % (json.dumps(s)[:400], res["error"]))
         ndrift = 0
-        for (s, exp), res in zip(model, results):
+        reproduced = {m: 0 for m in sim_modes}
+        for (s, exp), res, m in zip(model, results, model_mode):
             d = compare(exp, res["events"])
             if d:
                 ndrift += 1
-                rep.add_drift("model behaviour not reproduced by implementation: " + d)
-        groups = {2 * 1024: list(range(len(model))), T_REAL: list(range(len(model), len(scheds)))}
+                rep.add_drift("model behaviour (%s) not reproduced by implementation: %s" % (m, d))
+            else:
+                reproduced[m] += 1
+        n0, n1 = len(model), len(model) + len(rand)
+        groups = [("model", 2 * 1024, list(range(n0))), ("real", T_REAL, list(range(n0, len(scheds))))]
+
+        def sub(gname, i):
+            return gname if gname == "model" else ("random" if i < n1 else "extension")
         validated = 0
         kinds = set()
-        for Tval, idxs in groups.items():
+        judgements = {}
+        t0 = time.time()
+        for gname, Tval, idxs in groups:
             if not idxs:
                 continue
             traces = [results[i]["events"] for i in idxs]
             verdicts, r = tracecheck.validate(wd, "BlockServerTrace", "BlockServerTrace.cfg.tmpl", {"T": Tval}, traces)
             validated += len(traces)
+            ncount = 0
+            for v in tlc.printed_values(r, "COUNT"):
+                ncount += 1
+                tot = judgements.setdefault(sub(gname, idxs[v[1] - 1]), {})
+                for k, c in v[2].items():
+                    tot[k] = tot.get(k, 0) + c
+            if ncount != len(traces):
+                raise MachineryError("BlockServerTrace: %d COUNT lines for %d traces" % (ncount, len(traces)))
             for i, v in zip(idxs, verdicts):
                 for e in results[i]["events"]:
                     if e["k"] == "tx" and e["cls"] == "resp":
@@ -329,21 +360,48 @@ def work(rep, args):
                     rep.violation(
                         clause,
                         sig_of(clause, scheds[i], results[i]["events"], v["at"][clause]),
-                        "clause %s false at event %d of a recorded execution (%d events); T=%d; log errors %s"
-                        % (clause, v["at"][clause], len(results[i]["events"]), Tval, results[i]["meta"]["log_errors"][:1]),
+                        "clause %s false at event %d of a recorded execution (%d events, %s%s); T=%d; log errors %s"
+                        % (clause, v["at"][clause], len(results[i]["events"]), sub(gname, i),
+                           " " + scheds[i]["family"] if "family" in scheds[i] else "", Tval, results[i]["meta"]["log_errors"][:1]),
                         {"schedule": scheds[i], "events": results[i]["events"], "meta": results[i]["meta"], "T": Tval},
                     )
+        phases["tlc_traces"] = round(time.time() - t0, 1)
+        # what the extension is about has to have happened on the real code
+        allj = {}
+        for g in judgements.values():
+            for k, c in g.items():
+                allj[k] = allj.get(k, 0) + c
+        missing = [k for k in NEW_JUDGEMENTS if not allj.get(k)]
+        if missing:
+            raise MachineryError("vacuous run: no real execution was judged for %s" % missing)
+        fam = {}
+        for s_ in ext:
+            fam[s_["family"]] = fam.get(s_["family"], 0) + 1
+        both = sum(1 for res in results for e in res["events"]
+                   if e["k"] == "tx" and e["cls"] == "resp" and e["b1n"] >= 0 and e["b2n"] >= 0)
         rep.coverage.update(
             {
-                "states": mc.distinct, "transitions": mc.generated, "depth": mc.depth, "mc_constants": consts,
+                "states": sum(mcs[m].distinct for m in mc_modes), "transitions": sum(mcs[m].generated for m in mc_modes),
+                "depth": max(mcs[m].depth for m in mc_modes),
+                "mc_per_alphabet": {m: {"constants": mcc[m], "states": mcs[m].distinct, "transitions": mcs[m].generated,
+                                        "depth": mcs[m].depth, "wall_s": round(mcs[m].wall, 1)} for m in mc_modes},
+                "mc_constants": mcc["classic"],
                 "traces_validated_against_impl": validated,
                 "schedules_from_model_behaviours": len(model),
                 "model_behaviours_reproduced_exactly": len(model) - ndrift,
+                "model_behaviours_reproduced_per_alphabet": reproduced,
                 "random_schedules": len(rand),
+                "extension_schedules": len(ext),
+                "extension_families": dict(sorted(fam.items())),
+                "responses_with_block1_and_block2": both,
+                "judgements_by_tlc": {g: dict(sorted(c.items())) for g, c in judgements.items()},
                 "distinct_response_kinds": len(kinds),
-                "samples": [{"schedule": scheds[0], "events": results[0]["events"][:10]}, {"schedule": scheds[-1], "events": results[-1]["events"][:10]}],
+                "phases_wall_s": phases,
+                "samples": [{"schedule": scheds[0], "events": results[0]["events"][:10]},
+                            {"schedule": scheds[n1], "events": results[n1]["events"][:14]},
+                            {"schedule": scheds[-1], "events": results[-1]["events"][:10]}],
                 "exhaustive": True,
-                "checker_cmd": "tlc BlockServer.tla (exhaustive + -simulate); tlc BlockServerTrace.tla on recorded traces",
+                "checker_cmd": "tlc BlockServer.tla (exhaustive per alphabet + -simulate); tlc BlockServerTrace.tla on recorded traces",
             }
         )
         rep.assumptions += [
@@ -351,6 +409,10 @@ def work(rep, args):
             "between T and 2T after the last use both 'alive' and 'expired' are accepted; a rejected continuation may or may not count as a use",
             "where the latest block-0 rendering needed no block-wise transfer, a later-block request may be answered 4.00 or 4.08",
             "block 0 with more-flag and a payload shorter than its block size is not judged (the statement speaks of continuations)",
+            "a request that completes a body and asks for a later block (Block1 final + Block2 NUM > 0) may be served from the kept rendering without the handler, or reach the handler (then that key's rendering is not judged until the next block-0 request)",
+            "size exponent 7 (reserved / BERT) in Block2: 4.00 or 1024-byte slices are accepted, exponent 6 or 7 in the response; in Block1 it is not judged",
+            "a Block2 option asking for a later block on the first of several request blocks makes the completing request unjudged",
+            "handlers answer at once (no second request of the same key while a rendering is being made)",
         ]
 
 
